@@ -173,6 +173,7 @@ func TestVerifC15Lists(t *testing.T) {
 		}
 		r.Nontrivial(string(enc))
 		r.Sample(c15Describe(vs, issig))
+		r.Outcome(fmt.Sprintf("HashCommit:marker=%v:DER length form=%s:equals reference=%v", issig, c15LenForm(len(enc)), got != nil && got.Go().Cmp(want) == 0))
 		if got.Go().Cmp(want) != 0 {
 			r.Violate("C15|hashcommit!=reference|"+c15Class(vs, issig), fmt.Sprintf("HashCommit=%x reference=%x", got.Go(), want), c15Describe(vs, issig))
 		}
@@ -246,6 +247,7 @@ func TestVerifC15Perturb(t *testing.T) {
 		h1 := HashCommit(c15ToGabi(base), bm)
 		h2 := HashCommit(c15ToGabi(alt), am)
 		changed := bm != am || !same(base, alt)
+		r.Outcome(fmt.Sprintf("perturbation:%s:input changed=%v:digest changed=%v", what, changed, h1.Cmp(h2) != 0))
 		if changed {
 			r.Nontrivial(string(c15RefEncode(base, bm)) + "|" + string(c15RefEncode(alt, am)))
 		}
@@ -304,6 +306,7 @@ func TestVerifC15Sizes(t *testing.T) {
 		h := sha256.Sum256(enc)
 		got := HashCommit(c15ToGabi(vs), issig)
 		r.Nontrivial(string(h[:]))
+		r.Outcome(fmt.Sprintf("sizes:%s:DER length form=%s", class, c15LenForm(len(enc))))
 		if !bytes.Equal(got.Bytes(), new(mbig.Int).SetBytes(h[:]).Bytes()) {
 			r.Violate("C15|hashcommit!=reference|"+class, fmt.Sprintf("%s: HashCommit=%x reference=%x (reference encoding %d bytes)", class, got.Go(), h, len(enc)), map[string]any{"class": class, "marker": issig, "n": len(vs), "bits0": func() int {
 				if len(vs) > 0 {
@@ -417,6 +420,7 @@ func TestVerifC15HashNumber(t *testing.T) {
 					want := c15RefHashNumber(a, b, idx, bl)
 					got := GetHashNumber(toG(a), toG(b), idx, bl)
 					r.Nontrivial(want.Text(16))
+					r.Outcome(fmt.Sprintf("GetHashNumber:blocks=%d:b present=%v", (bl+255)/256, b != nil))
 					if got.Go().Cmp(want) != 0 {
 						r.Violate(fmt.Sprintf("C15|gethashnumber!=reference|a#%d,b#%d", ai, bi), fmt.Sprintf("a#%d b#%d index=%d bitlen=%d: got %x want %x", ai, bi, idx, bl, got.Go(), want), map[string]any{"a": ai, "b": bi, "index": idx, "bitlen": bl})
 					}
@@ -447,5 +451,19 @@ func TestVerifC15HashNumber(t *testing.T) {
 				r.Violate("C15|inthashsha256!=reference", fmt.Sprintf("len=%d pattern=%d", n, pat), map[string]any{"len": n, "pattern": pat})
 			}
 		}
+	}
+}
+
+// c15LenForm classifies the DER length form of an encoding of n bytes (short form, or number of length bytes).
+func c15LenForm(n int) string {
+	switch {
+	case n < 128+2:
+		return "short"
+	case n < 256+3:
+		return "0x81"
+	case n < 65536+4:
+		return "0x82"
+	default:
+		return "0x83"
 	}
 }
